@@ -7,6 +7,7 @@ package vsched
 
 import (
 	"fmt"
+	"runtime"
 	"runtime/debug"
 	"sort"
 	"strings"
@@ -145,16 +146,17 @@ type Options struct {
 }
 
 type sched struct {
-	threads  []*Thread
-	cur      *Thread
-	parked   chan struct{}
-	aborting bool
-	opts     Options
-	res      *Result
-	nextPt   int
-	epoch    uint64
-	timers   []*Timer
-	now      int64 // logical nanoseconds
+	threads   []*Thread
+	cur       *Thread
+	parked    chan struct{}
+	aborting  bool
+	opts      Options
+	res       *Result
+	nextPt    int
+	epoch     uint64
+	timers    []*Timer
+	idleWakes int
+	now       int64 // logical nanoseconds
 }
 
 var (
@@ -311,11 +313,31 @@ func (sc *sched) loop() {
 			}
 		}
 		if len(en) == 0 {
-			// wake sleepers if nothing else can run
+			// wake sleepers if nothing else can run; if that keeps happening without any
+			// thread making progress in between, the waiting is a deadlock (everybody polls)
 			for _, t := range sc.threads {
 				if t.status == stSleeping {
 					t.woken = true
 					en = append(en, t)
+				}
+			}
+			if len(en) > 0 {
+				sc.idleWakes++
+				if sc.idleWakes > 3*len(sc.threads)+3 && !sc.pendingTimer() {
+					var b []string
+					for _, t := range sc.threads {
+						if t.status != stDone {
+							b = append(b, fmt.Sprintf("T%d(%s)@%s", t.ID, t.Name, t.why))
+						}
+					}
+					sort.Strings(b)
+					sc.res.Deadlock = "only waiting threads remain: " + strings.Join(b, " ")
+					sc.abortAll()
+					return
+				}
+				if sc.idleWakes > 3*len(sc.threads)+3 && sc.fireTimer() {
+					sc.idleWakes = 0
+					continue
 				}
 			}
 		}
@@ -385,6 +407,9 @@ func (sc *sched) loop() {
 		last = t
 		t.resume <- struct{}{}
 		<-sc.parked
+		if t.status == stDone || t.status == stBlocked {
+			sc.idleWakes = 0
+		}
 		if sc.res.Panic != "" || sc.res.Horizon != "" {
 			sc.abortAll()
 			return
@@ -451,6 +476,7 @@ func Point(label string) {
 		panic(abortT{})
 	}
 	t.status = stRunnable
+	sc.idleWakes = 0
 	sc.park(t)
 }
 
@@ -495,8 +521,8 @@ func SleepYield(label string) {
 
 // ---- logical time -------------------------------------------------------------------
 
-// Timer is a logical timer: it fires (runs fn in the controller, which must only flip
-// flags) when every thread is blocked, in due order, advancing the logical clock.
+// Timer is a logical timer: it fires (fn runs as a new scheduled thread) when no thread
+// can run, in due order, advancing the logical clock to its due time.
 type Timer struct {
 	due     int64
 	fn      func()
@@ -544,6 +570,81 @@ func (sc *sched) fireTimer() bool {
 		sc.now = best.due
 	}
 	best.fired = true
-	best.fn()
+	sc.newThread("timer", false, best.fn) // the callback runs as a scheduled thread
 	return true
+}
+
+func (sc *sched) pendingTimer() bool {
+	for _, t := range sc.timers {
+		if !t.stopped && !t.fired {
+			return true
+		}
+	}
+	return false
+}
+
+// ---- channels ------------------------------------------------------------------------
+// Channel operations in instrumented code are try-operations in a loop: if the operation
+// cannot proceed the thread is disabled until some other thread has stepped, then tries
+// again. This supports buffered and close-only channels (a receive from a closed or
+// non-empty channel, a send into a non-full buffer). Unbuffered rendezvous between two
+// instrumented threads is not supported (neither side ever commits).
+
+// Recv is `<-ch`.
+func Recv[T any](ch <-chan T) T {
+	v, _ := Recv2(ch)
+	return v
+}
+
+// Recv2 is `v, ok := <-ch`.
+func Recv2[T any](ch <-chan T) (T, bool) {
+	if !Active() {
+		v, ok := <-ch
+		return v, ok
+	}
+	Point("chan.recv")
+	for {
+		select {
+		case v, ok := <-ch:
+			return v, ok
+		default:
+		}
+		if Aborting() {
+			panic(abortT{})
+		}
+		SleepYield("chan.recv(wait)")
+	}
+}
+
+// Send is `ch <- v`.
+func Send[T any](ch chan<- T, v T) {
+	if !Active() {
+		ch <- v
+		return
+	}
+	Point("chan.send")
+	for {
+		select {
+		case ch <- v:
+			return
+		default:
+		}
+		if Aborting() {
+			panic(abortT{})
+		}
+		SleepYield("chan.send(wait)")
+	}
+}
+
+// SelectYield is the default case the instrumenter adds to a blocking select.
+func SelectYield() {
+	if !Active() {
+		runtime.Gosched()
+		time.Sleep(20 * time.Microsecond)
+		return
+	}
+	if Aborting() {
+		panic(abortT{})
+	}
+	SleepYield("select(wait)")
 }
